@@ -335,12 +335,12 @@ def controlling(cfg, bid):
     return res
 
 
-def must_state(cfg, gen_el=None, gen_edge=None, kill_el=None):
+def must_state(cfg, gen_el=None, gen_edge=None, kill_el=None, entry=False):
     """forward must-dataflow of one boolean fact.  The fact is generated by elements satisfying gen_el and by edges
     (bid, succ index) satisfying gen_edge, killed by elements satisfying kill_el; it holds at a point when it holds
     on every path from the entry.  Returns state(bid, idx) -> bool = fact holds immediately before element idx."""
     IN = {b: True for b in cfg.blocks}
-    IN[cfg.entry] = False
+    IN[cfg.entry] = bool(entry)
 
     def flow(bid, upto=None):
         s = IN[bid]
